@@ -36,12 +36,12 @@ def units(tier):
     return [("sels", lo, min(n, lo + chunk)) for lo in range(0, n, chunk)]
 
 
-def check_selector(sel, trees, part, record=True):
+def check_selector(sel, trees, part, record=True, mixed=False):
     from ptera import probing
 
     rss_ok = R.self_check()
     tw = E.tree_world()
-    text = R.render(sel)
+    text = R.render(sel, mixed=mixed)
     falias = [c for c in R.focus_path(sel)[-1].caps if c.focus][0].alias
     events = []
     try:
@@ -113,8 +113,11 @@ def tree_list(tier):
 def work(unit, tier):
     part = new_partial()
     _, lo, hi = unit
-    for sel in selectors(tier)[lo:hi]:
-        check_selector(sel, tree_list(tier), part)
+    for n, sel in enumerate(selectors(tier)[lo:hi]):
+        # alternate between the all-parentheses and the mixed '>' spelling of the same selector
+        check_selector(sel, tree_list(tier), part, mixed=bool((lo + n) % 2) or len(sel.children) > 1)
+        if len(sel.children) > 1:
+            check_selector(sel, tree_list(tier), part, mixed=False)
         if len(part["samples"]) < 2:
             part["samples"].append({"selector": R.render(sel), "example_tree": CT.describe(tree_list(tier)[200])})
     return part
@@ -125,8 +128,10 @@ def replay(case):
     tree = eval(case["tree_repr"]) if "tree_repr" in case else None
     for tier in ("thorough",):
         for sel in selectors(tier):
-            if R.render(sel) == case["selector"]:
-                check_selector(sel, [tree] if tree else tree_list("quick"), part)
+            for mixed in (False, True):
+                if R.render(sel, mixed=mixed) != case["selector"]:
+                    continue
+                check_selector(sel, [tree] if tree else tree_list("quick"), part, mixed=mixed)
                 if part["violations"]:
                     return True, part["violations"][0]["detail"]
                 return False, "stream equals the RSS expectation"
